@@ -526,11 +526,19 @@ def main(run):
             run.violation(site, "recovery" + ("-pressure" if c["pressure"] else "") + ("-outside-grid" if c["outside"] else ""),
                           "fitted V(T), G(T), B(T) differ from the parameters of the generating EOS: rel V %.3g, G %.3g eV, rel B %.3g" % (errV, errG, errB), info)
         # ---- oracle: the order in which the volume points are listed is a choice of description — every array permuted consistently
-        # along its volume axis (a rotation of the list: not its own inverse) must give the same V(T), G(T), B(T)
+        # along its volume axis (a 3-cycle of list positions: not its own inverse) must give the same V(T), G(T), B(T)
         # (seeded change r7-c20: inputs sorted along the volume axis with the inverse permutation for the energies)
         if c["outside"] is None and nv >= 4 and not (errV > tolV or errG > tolG or errB > tolB):
+            # a 3-cycle (not its own inverse) of list positions that leaves position nv//2 alone: the unconstrained leastsq starts from
+            # [E, 1, 4, V] of the MIDDLE list entry, and how the fit depends on that start is the territory of the known finding
+            # (a rotated list moved the start and, in the thorough tier, one fit in ~1000 stopped at another stationary point)
             k_ = 1 + (len(qcases) % 2)
-            perm = np.roll(np.arange(nv), k_)
+            cyc = [i_ for i_ in (0, 1, nv - 1, nv - 2) if i_ != nv // 2][:3]
+            perm = np.arange(nv)
+            if k_ == 1:
+                perm[cyc[0]], perm[cyc[1]], perm[cyc[2]] = cyc[1], cyc[2], cyc[0]
+            else:
+                perm[cyc[0]], perm[cyc[1]], perm[cyc[2]] = cyc[2], cyc[0], cyc[1]
             arrs_p = {k2: (np.array(v2)[..., perm].copy() if k2 != "temperatures" else np.array(v2).copy()) for k2, v2 in caller_arrays(c, fph).items()}
             try:
                 qp = run_qha(c, fph, arrays=arrs_p)
@@ -542,7 +550,7 @@ def main(run):
             run.count("oracle-volume-order-independence", section="oracle")
             if eVp > 10 * tolV or eGp > 10 * tolG or eBp_ > 10 * tolB:
                 run.violation(site, "volume-order" + ("-pressure" if c["pressure"] else ""),
-                              "with the volume points listed in another order (list rotated by %d, all arrays permuted consistently) the fitted V(T), G(T), B(T) "
+                              "with the volume points listed in another order (3-cycle no. %d of list positions, all arrays permuted consistently) the fitted V(T), G(T), B(T) "
                               "differ from the parameters of the generating EOS: rel V %.3g, G %.3g eV, rel B %.3g (listed ascending: %.3g, %.3g, %.3g)" % (
                                   k_, eVp, eGp, eBp_, errV, errG, errB), dict(info, volume_order=perm.tolist()))
         if c["pressure"] is None and c["shape"] == "V":
